@@ -459,6 +459,7 @@ struct Result {
     bool sharedLanes = false;
     int distinct = 0, skippedGets = 0;
     std::uint64_t steps = 0, switches = 0;
+    std::uint64_t digest = 1469598103934665603ull;   // of every reference returned, in completion order
 };
 
 static Result runCase(const Case& c, vsched::ChoiceSource* src) {
@@ -537,6 +538,7 @@ static Result runCase(const Case& c, vsched::ChoiceSource* src) {
                     const long idx = tab->insert(lane, k, o.kind == O_INS, ins);
                     trk.endInsert(id);
                     m.inflight[k.tok]--;
+                    res.digest = (res.digest ^ (std::uint64_t)(idx * 4 + ins + 1) ^ ((std::uint64_t)id << 40)) * 1099511628211ull;
                     std::string f = m.onInsert(k.tok, idx, ins, false);
                     // the reference is usable at once, in the thread that received it
                     if (f.empty() && !tab->fetchEq(lane, idx, k))
@@ -735,6 +737,11 @@ static void buildPools() {
             t[0] = vals[j];
             recPool[a].push_back(recTok(t.data(), t.size()));
         }
+        for (int j = 0; j < 4; j++) {   // differ only in the last element
+            std::vector<RamDomain> t((std::size_t)a, 0);
+            t[(std::size_t)a - 1] = j + 1;
+            recPool[a].push_back(recTok(t.data(), t.size()));
+        }
         std::vector<RamDomain> z((std::size_t)a, 0);
         const std::size_t refb = h(z) % 13;
         for (int x = 7, found = 0; found < 12 && x < 100000; x++) {
@@ -803,6 +810,7 @@ static int realMain(int argc, char** argv) {
                     for (std::size_t i = 0; i < dfs.depth; i++) rc.sched.push_back((std::uint8_t)dfs.stack[i].chosen);
                     account(st, rc, r);
                     if (!r.ok) {
+                        st.extra["first_failure_at_case"] = schedules;
                         st.violations.push_back({rc.text(), r.msg});
                         goto out;
                     }
@@ -842,7 +850,7 @@ static int realMain(int argc, char** argv) {
         c.hash = *rc::gen::weightedElement<int>({{2, 0}, {4, 1}, {3, 2}});
         c.reserve = *hc::R(0, 2);
         // value pool of the case
-        const int mainArity = *hc::R(0, 7);
+        const int mainArity = *hc::R(0, 12) == 0 ? 0 : *hc::R(1, 7);
         auto genKey = [&]() -> std::string {
             if (c.variant == V_REC) {
                 const int a = *hc::R(0, 4) == 0 ? *hc::R(0, 7) : mainArity;
@@ -885,8 +893,15 @@ static int realMain(int argc, char** argv) {
         pending.clear();
         account(st, c, r);
         if (!r.ok) {
+            if (!st.extra.count("first_failure_at_case")) st.extra["first_failure_at_case"] = st.evals;
             lastFail = c;
             lastMsg = r.msg;
+        } else if (st.evals % 500 == 0 && !r.inconclusive) {
+            // determinism self-check (DESIGN 8.1): the same case and schedule must give the same execution
+            TailSource again(c.sched, c.tail, c.den);
+            Result r2 = runCase(c, &again);
+            st.cls("determinism_rechecked");
+            if (r2.ok && (r2.digest != r.digest || r2.steps != r.steps)) st.inconclusive["execution_not_deterministic"]++;
         }
         RC_ASSERT(r.ok);
     });
